@@ -613,7 +613,7 @@ def resolve_strategy_inline_recurse(path, base, decisions):
             elif k == 'id':
                 # The id must stay a string for the cell to be valid,
                 # the remote id is still available in the decision
-                cell[k] = lcell[k]
+                cell[k] = lcell[k] if k in lcell else rcell[k]
 
             elif k == 'execution_count':
                 cell[k] = None  # Clear
